@@ -417,7 +417,10 @@ def h_list(I, st, fv, args, kwargs, ctx):
     if isinstance(x, Ref):
         h = st.heap[x.oid]
         if h.kind == "list":
-            return [(st, I.alloc_list(st, h.seq))]
+            r = I.alloc_list(st, h.seq)
+            if h.fields.get("$map") is not None:
+                st.heap[r.oid].fields["$map"] = h.fields["$map"]      # a fact about the item sequence: the copy has the same items
+            return [(st, r)]
         if h.kind == "dict":
             if h.ckeys is not None:
                 return [(st, I.make_list(st, [Conc(k) for k in h.ckeys]))]
